@@ -109,8 +109,9 @@ def enc_kwargs(kw):
     for k, v in kw.items():
         if isinstance(v, str):
             out[k] = {"str": [ord(c) for c in v]}
-        elif isinstance(v, (list, tuple)):
-            out[k] = {"list": [[ord(c) for c in s] for s in v]}
+        elif isinstance(v, (list, tuple, set, frozenset, dict)):
+            out[k] = {"list": [[ord(c) for c in s] for s in sorted(v)] if not isinstance(v, (list, tuple)) else [[ord(c) for c in s] for s in v],
+                      "form": type(v).__name__}
         elif v is None:
             out[k] = None
         else:
@@ -338,7 +339,7 @@ def run_constructor(markup, kwargs, post=True):
             rec["half_built"] = "markup/builder.soup not cleared after a successful parse"
         rec["orig"] = soup.original_encoding
         rec["repl"] = soup.contains_replacement_characters
-        if post and depth < 200:
+        if post and depth <= 6000:
             rec["post"] = post_ops(soup)
     return rec
 
@@ -566,9 +567,10 @@ def gen_structural(ctx):
         out.append(("deep", "<a>" * n + "x" + "</a>" * n, {}, True))
         out.append(("deep", "<b><i>" * (n // 2 + 1) + "</b></i>" * (n // 2 + 1), {}, True))
     for n in (1000, 5000, 20000):
-        out.append(("deep-ctor-only", "<a>" * n, {}, False))
-        out.append(("deep-ctor-only", "<p>t" * n, {}, False))
-        out.append(("deep-ctor-only", "</a>" * n, {}, False))
+        out.append(("deep-nesting", "<a>" * n, {}, n <= 5000))
+        out.append(("deep-nesting", "<p>t" * n, {}, n <= 5000))
+        out.append(("deep-nesting", "<a>x" * (n // 2) + "</a>y" * (n // 2), {}, n <= 5000))
+        out.append(("deep-nesting", "</a>" * n, {}, True))
     for n in (100, 1000, 70000):
         out.append(("long", "<" + "a" * n + ">", {}, True))
         out.append(("long", "<a " + "b" * n + "=1>", {}, True))
@@ -681,6 +683,10 @@ def enc_args(r):
         kw["exclude_encodings"] = r.choice(["utf-8", "", "windows-1252"])       # a plain string instead of a list
     elif c < 0.55:
         kw["exclude_encodings"] = tuple(r.choice(pool) for _ in range(2))
+    elif c < 0.6:
+        kw["exclude_encodings"] = frozenset(r.choice(pool) for _ in range(3))
+    elif c < 0.63:
+        kw["exclude_encodings"] = {r.choice(pool): 1 for _ in range(2)}          # a mapping: iterated by key
     return kw
 
 
@@ -878,12 +884,15 @@ def stream_dammit(ctx, drv, byte_cases):
         ctx.case(("D", markup, repr(kwargs)) if nontrivial else None)
         ctx.count("dammit:" + got.split(" empty")[0].split(" enc")[0] + (":repl" if "repl=1" in got else ""))
         # direct oracle: None only if no candidate decodes even with replacement
-        if d.unicode_markup is None and any(row[1] != "n" for c, row in table.items() if any(e != "ascii" and d.find_codec(e) == c for e in encs)):
+        if (d.unicode_markup is None and any(row[1] != "n" for c, row in table.items() if any(e != "ascii" and d.find_codec(e) == c for e in encs))
+                and not capped(ctx, "dammit", "gave-up")):
             ctx.violation("UnicodeDammit gave up although a candidate decodes with errors='replace'", case=cases[-1], observed=got, stream="dammit")
     rep = drv.ask(lines)
     for l, a, b, c in zip(lines, impl, rep, cases):
         if a != b:
             ctx.corr_disagreements += 1
+            if capped(ctx, "dammit", "disagree"):
+                continue
             ctx.violation("model and implementation disagree on UnicodeDammit's passes", case=c | {"line": l}, observed=a, model=b, stream="dammit",
                           no_failing_input=True)
     ctx.count("dammit:requests", len(lines))
@@ -1370,7 +1379,7 @@ def run(ctx: Ctx):
         "the handlers other than handle_charref do not raise (C04's models); measured by the outcome oracle",
         "feed writes only attributes that reset()/initialize_soup/the loop header re-assign: instrumented into Gen.feedTouches on every run and measured "
         "by the fault-injection stream (canonical dump incl. every attribute of the object and of the builder)",
-        "post-construction checks (decode/get_text/prettify/encode/copy/find_all) only for nesting depth < 200 (C11's recursion findings)",
+        "post-construction checks (decode/get_text/prettify/encode/copy/find_all) for nesting depth <= 6000 (copy is quadratic in depth beyond)",
     ]
     drv = Driver()
     cases = []
